@@ -63,6 +63,11 @@ def run(chk: Check):
                 return True
         return False
 
+    # models with variables and distribution nodes (random plans): structure of one build; graphs that must be rejected
+    plans = [B.plan_build_trace(rng, 8) for _ in range(12 if chk.quick else 150)] + [B.rejected_build_events()]
+    chk.tv("Trace_LieselBuild.tla", plans, tag="plans_with_variables", cfg_extra=TV_CFG,
+           keyfn=lambda r: f"build:plans:{r.conjunct}:{r.trace['ev'][r.line - 1].get('what', '')}",
+           describe=lambda r: str({k: v for k, v in r.trace["ev"][r.line - 1].items() if k != "all_names"})[:400])
     cyc = [B.cyclic_trace(False), B.cyclic_trace(True)]
     chk.tv("Trace_LieselBuild.tla", cyc, tag="cyclic_universe",
            cfg_extra=TV_CFG.replace("UIn <- UIn1", "UIn <- UInCycT").replace("Seeded = {4}", "Seeded = {}"),
